@@ -222,6 +222,24 @@ impl Engine for C15 {
             }
             out.push(Program { keys, blobs, steps });
         }
+        // a long history on one key, then every read-only call: whatever housekeeping an
+        // implementation does on big buckets, it does not do it from a read
+        for variant in 0..2usize {
+            let keys = vec!["long-history".to_string(), "quiet".to_string()];
+            let blobs = vec![crate::blob::Blob::new(9, 1), crate::blob::Blob::new(12, 2)];
+            let mut steps = vec![Step { op: Op::Write(WriteSpec::simple(Some(1), 1)), fl: Fl::Sync }];
+            for i in 0..(300 + variant * 300) {
+                let op = if i % 3 == 2 { Op::Remove { key: 0 } } else { Op::Write(WriteSpec::simple(Some(0), i % 2)) };
+                steps.push(Step { op, fl: if (i / 5 + variant) % 2 == 0 { Fl::Sync } else { Fl::Async } });
+            }
+            let a = AddrRef { algo: crate::blob::Algo::Sha256, blob: 0 };
+            for fl in [Fl::Sync, Fl::Async] {
+                for op in [Op::Meta { key: 0 }, Op::Read { key: 0 }, Op::Stream { by: By::Key(0), bufs: vec![5] }, Op::Exists { addr: a }, Op::ReadHash { addr: a }, Op::IdxFind { key: 0 }, Op::List, Op::IdxLs, Op::Meta { key: 1 }] {
+                    steps.push(Step { op, fl });
+                }
+            }
+            out.push(Program { keys, blobs, steps });
+        }
         let hk = gen::hostile_keys();
         for (i, pair) in hk.chunks(2).enumerate() {
             let keys: Vec<String> = pair.to_vec();
@@ -250,7 +268,7 @@ impl Engine for C15 {
         out
     }
     fn exhaustive_note(&self, _tier: Tier) -> String {
-        "every key of the hostile pool once (fixed family): write, lookup, read, list, remove, re-write, extract, full removal".into()
+        "every key of the hostile pool once (fixed family): write, lookup, read, list, remove, re-write, extract, full removal; large entries through every extraction entry point; histories of 300 / 600 records on one key followed by every read-only call".into()
     }
     fn max_shrink_iters(&self) -> u32 {
         200
